@@ -19,6 +19,7 @@ META = {
     "assumptions": [],
 }
 META["explanation"] += " " + 'X-stringify additionally: the member write of the object/array writers is guarded by !isUndefined() (and a null test) only -- nothing else is skipped.'
+META["explanation"] += " " + '(PR-flush) typestate per iteration of JSONUtils::Escape\'s loop: no output precedes the flush of the pending slice and an iteration that flushed moves the flushed cursor on. X-stringify additionally: the skip test the container writers use has an arm for the pointer kind (a member pointing to an Undefined value is omitted, not written as `"key":,`).'
 
 KIND_WRITERS = {
     "Object": ("call", "stringifyObject"), "Array": ("call", "stringifyArray"), "String": ("call", "Escape"),
@@ -189,7 +190,7 @@ def run(ctx):
         for lp in loops:
             for i in astq.nodes_of(f, "IfStmt", f.nodes[lp]["body"]):
                 ct = f.text(f.nodes[i]["cond"])
-                if "isUndefined()" in ct and "!" in ct:
+                if re.search(r"[iI]sUndefined\(\)", ct) and "!" in ct:
                     inner_calls = astq.calls(f, "stringifyValue", f.nodes[i]["then"])
                     outside = [c for c in astq.calls(f, "stringifyValue", f.nodes[lp]["body"]) if c not in inner_calls]
                     ok_skip = bool(inner_calls) and not outside
@@ -213,7 +214,7 @@ def run(ctx):
                             atoms.append(f.text(f.strip(nid)).replace(" ", ""))
                     flat(f.nodes[x]["cond"])
                     for a_ in atoms:
-                        if re.match(r"^\(*!\(*[\w.>\-]*isUndefined\(\)\)*$", a_):
+                        if re.match(r"^\(*!\(*[\w.>\-]*[iI]sUndefined\(\)\)*$", a_):
                             continue
                         if re.match(r"^\(*\w+!=nullptr\)*$", a_):
                             continue
@@ -221,6 +222,20 @@ def run(ctx):
                     x = astq.enclosing(f, x, ("IfStmt",))
         r.ob(f.q, "nothing but Undefined is skipped", not extra, "the member write is guarded by `!isUndefined()` (and a null test) only%s" % (
              "" if not extra else "; also by %s: live members failing that test are silently dropped from the text" % extra), "Include/Value.hpp:%d" % f.line)
+        # the skip test must see through the pointer kind: stringifyValue writes a pointer member by recursing into its target,
+        # which may be Undefined (nothing is written then, and the text reads "b":, ) -- the predicate used has a ValuePtr arm
+        preds = set()
+        for lp in loops:
+            for c_ in astq.calls(f, None, f.nodes[lp]["body"]):
+                nm_ = f.call_simple_name(c_) or ""
+                if re.match(r"^[iI]sUndefined$", nm_):
+                    preds.add(nm_)
+        for nm_ in sorted(preds):
+            defs = [g for g in m.functions if not g.inst and g.cls == "Qentem::Value" and g.name == nm_ and g.cfg]
+            follows = any(any(g.nodes[y].get("n") == "ValuePtr" or "ValuePtr" in (g.text(y) if g.nodes[y]["k"] in ("DeclRefExpr", "DependentScopeDeclRefExpr") else "") for y in g.walk()) for g in defs)
+            r.ob(f.q, "skip test %s() sees through pointers" % nm_, follows, "its definition %s" % (
+                "has an arm for the pointer kind" if follows else "compares the kind with Undefined only: a member that points to an Undefined value passes the test, stringifyValue then writes nothing for it and the text is `\"key\":,`"),
+                "Include/Value.hpp:%d" % (defs[0].line if defs else f.line))
         r.ob(f.q, "comma after emitted member only", comma_in_guard, "',' is written only inside the same guard", "Include/Value.hpp:%d" % f.line)
         # comma patch: if (*last == Comma) *last = close; else stream += close
         patch = False
@@ -241,4 +256,6 @@ def run(ctx):
             ok = bool(calls) and all(any(f.nodes[x].get("n") == "precision" for x in f.walk(c)) for c in calls)
             r.ob(f.q, "forward precision", ok, "every writer call receives `precision`", "Include/Value.hpp:%d" % f.line)
     rules.append(r)
+    from rules.common import rule_flush_first
+    rules.append(rule_flush_first(ctx, m, "Qentem::JSONUtils::Escape"))
     return rules
